@@ -2,7 +2,7 @@
    expression accepts and that parses back to the same pair. *)
 From Coq Require Import List NArith ZArith Lia Bool.
 From Coq Require Import ZifyN ZifyNat ZifyBool.
-From Mant Require Import Prim.R Prim.Bytes Prim.Dec Model.StrC20 Model.Ports Spec.C20 Proofs.C20Str.
+From Mant Require Import Prim.R Prim.Bytes Prim.Dec Model.StrC20 Model.Ip Model.Ports Spec.C20 Proofs.C20Str Proofs.C20Ip.
 Import ListNotations.
 Open Scope N_scope.
 
@@ -112,4 +112,124 @@ Proof.
   destruct (port_bound 0 p0) as [x| |]; cbn [bind]; try discriminate.
   destruct (port_bound 65535 p1) as [y| |]; cbn [bind]; try discriminate.
   intros H. inversion H; subst. unfold port, wrap16. split; apply N.mod_lt; lia.
+Qed.
+
+(* ------------------------------------------------------------------ *)
+(* Converse: the only texts NewTCPPortRangeFromString accepts are the canonical ones. *)
+
+Lemma split_on_two sep s p0 p1 : split_on sep s = [p0; p1] -> s = p0 ++ sep :: p1.
+Proof. intros H. rewrite <- (join_split sep s), H. reflexivity. Qed.
+
+Definition digits10 : list N := [48; 49; 50; 51; 52; 53; 54; 55; 56; 57].
+
+Fixpoint lists_len (n : nat) : list (list N) :=
+  match n with
+  | O => [[]]
+  | S k => flat_map (fun d => map (cons d) (lists_len k)) digits10
+  end.
+
+Lemma d09_in c : d09 c = true -> In c digits10.
+Proof.
+  unfold d09, rng. intros H.
+  assert (E : c = 48 \/ c = 49 \/ c = 50 \/ c = 51 \/ c = 52 \/ c = 53 \/ c = 54 \/ c = 55 \/ c = 56 \/ c = 57) by lia.
+  unfold digits10. cbn [In]. intuition.
+Qed.
+
+Lemma in_lists_len ds : forallb d09 ds = true -> In ds (lists_len (length ds)).
+Proof.
+  induction ds as [|d ds IH]; intros H; [now left|].
+  cbn [forallb] in H. apply andb_true_iff in H. destruct H as [Hd Hds].
+  cbn [length lists_len]. apply in_flat_map. exists d. split; [now apply d09_in|].
+  apply in_map. now apply IH.
+Qed.
+
+Lemma port_alt_digits ds : port_alt ds = true -> forallb d09 ds = true /\ (1 <= length ds <= 5)%nat.
+Proof.
+  unfold port_alt.
+  destruct ds as [|a [|b [|c [|d [|e [|f ?]]]]]]; try discriminate; cbn [forallb length];
+    unfold d09, rng; intros H; split; lia.
+Qed.
+
+Lemma in_upto5 (LL : nat -> list (list N)) ds :
+  (1 <= length ds <= 5)%nat -> In ds (LL (length ds)) -> In ds (LL 1%nat ++ LL 2%nat ++ LL 3%nat ++ LL 4%nat ++ LL 5%nat).
+Proof.
+  intros Hl Hi. rewrite !in_app_iff.
+  destruct (length ds) as [|[|[|[|[|[|n]]]]]]; try lia; tauto.
+Qed.
+
+(* a numeral accepted by the port alternation is the canonical decimal text of its value, below 65536 *)
+Lemma port_alt_canonical ds :
+  port_alt ds = true -> ds = print_dec (dec_val ds) /\ dec_val ds < 65536.
+Proof.
+  intros H. destruct (port_alt_digits ds H) as (Hd & Hl).
+  assert (Hall : forallb (fun ds => implb (port_alt ds)
+                   (bytes_eqb ds (print_dec (dec_val ds)) && (dec_val ds <? 65536)))
+                   (lists_len 1 ++ lists_len 2 ++ lists_len 3 ++ lists_len 4 ++ lists_len 5) = true)
+    by (vm_compute; reflexivity).
+  rewrite forallb_forall in Hall. specialize (Hall ds).
+  rewrite H in Hall. cbn [implb] in Hall.
+  assert (Hin : In ds (lists_len 1 ++ lists_len 2 ++ lists_len 3 ++ lists_len 4 ++ lists_len 5)).
+  { apply (in_upto5 lists_len); [exact Hl|]. now apply in_lists_len. }
+  apply Hall in Hin. apply andb_true_iff in Hin. destruct Hin as [E1 E2].
+  apply bytes_eqb_spec in E1. split; [exact E1|lia].
+Qed.
+
+Lemma port_bound_some dflt part n :
+  port_bound dflt part = Ok n ->
+  part = [] /\ n = dflt \/ (part <> [] /\ forallb is_digit part = true /\ dec_val part = n).
+Proof.
+  unfold port_bound. destruct part as [|c r].
+  - cbn. intros H. inversion H. now left.
+  - rewrite lenN_cons. destruct (N.ltb_spec 0 (1 + lenN r)) as [_|Hbad]; [|lia].
+    unfold parse_uint10, parse_dec. destruct (forallb is_digit (c :: r)) eqn:Hd; [|discriminate].
+    destruct (dec_val (c :: r) <? 2 ^ 16); [|discriminate].
+    destruct (65535 <? dec_val (c :: r)); [discriminate|].
+    intros Hok. inversion Hok. right. repeat split; congruence.
+Qed.
+
+Lemma port_re_parts s :
+  port_re s = true ->
+  exists s3, drop_while re_space (drop_while d09 (drop_while re_space s)) = 45 :: s3 /\
+             port_alt (take_while d09 (drop_while re_space s)) = true /\
+             port_alt (take_while d09 (drop_while re_space s3)) = true.
+Proof.
+  unfold port_re. destruct (drop_while re_space (drop_while d09 (drop_while re_space s))) as [|c s3];
+    [discriminate|].
+  intros H. apply andb_true_iff in H. destruct H as [H _].
+  apply andb_true_iff in H. destruct H as [H A1].
+  apply andb_true_iff in H. destruct H as [Hc A0]. apply N.eqb_eq in Hc. subst c.
+  exists s3. repeat split; assumption.
+Qed.
+
+Lemma ports_canonical s a b : ports_of_string s = Ok (a, b) -> s = ports_string a b.
+Proof.
+  unfold ports_of_string. destruct (port_re s) eqn:Hre; [|discriminate]. cbn [negb].
+  destruct (split_on 45 s) as [|p0 [|p1 [|? ?]]] eqn:Hsp; try discriminate.
+  apply split_on_two in Hsp. subst s.
+  destruct (port_bound 0 p0) as [x| |] eqn:B0; cbn [bind]; try discriminate.
+  destruct (port_bound 65535 p1) as [y| |] eqn:B1; cbn [bind]; try discriminate.
+  intros H. inversion H; subst a b. clear H.
+  apply port_bound_some in B0. apply port_bound_some in B1.
+  destruct (port_re_parts _ Hre) as (s3 & Hs3 & A0 & A1). clear Hre.
+  destruct B0 as [[-> _]|(Hne0 & Hd0 & Hv0)].
+  { (* empty start: the expression requires a digit *)
+    assert (E : take_while d09 (drop_while re_space ([] ++ 45 :: p1)) = []) by reflexivity.
+    rewrite E in A0. discriminate. }
+  assert (Hh0 : match p0 ++ 45 :: p1 with c :: _ => re_space c = false | [] => True end).
+  { destruct p0 as [|c r]; [congruence|]. cbn [app]. cbn [forallb] in Hd0.
+    apply andb_true_iff in Hd0. now apply digit_not_space. }
+  rewrite (drop_while_head re_space _ Hh0) in Hs3, A0.
+  destruct (take_while_app d09 p0 (45 :: p1) Hd0 eq_refl) as [T1 D1]. rewrite T1 in A0. rewrite D1 in Hs3.
+  assert (E3 : drop_while re_space (45 :: p1) = 45 :: p1) by reflexivity.
+  rewrite E3 in Hs3. inversion Hs3; subst s3. clear Hs3 E3.
+  destruct B1 as [[-> _]|(Hne1 & Hd1 & Hv1)].
+  { discriminate. }
+  assert (Hh1 : match p1 with c :: _ => re_space c = false | [] => True end).
+  { destruct p1 as [|c r]; [exact I|]. cbn [forallb] in Hd1.
+    apply andb_true_iff in Hd1. now apply digit_not_space. }
+  rewrite (drop_while_head re_space _ Hh1) in A1.
+  destruct (take_while_app d09 p1 [] Hd1 I) as [T2 _]. rewrite app_nil_r in T2. rewrite T2 in A1.
+  destruct (port_alt_canonical p0 A0) as (E0 & L0). destruct (port_alt_canonical p1 A1) as (E1 & L1).
+  unfold ports_string, wrap16. rewrite Hv0 in *. rewrite Hv1 in *.
+  rewrite !N.mod_small by lia. cbn [app]. congruence.
 Qed.
